@@ -215,6 +215,7 @@ func runProperty(w *World, o *checkOpts) *Report {
 		}(j)
 	}
 	wg.Wait()
+	retReach := map[string]bool{}
 	byFunc := map[string]*FuncReport{}
 	for _, fr := range rep.Funcs {
 		byFunc[fr.Name] = fr
@@ -227,10 +228,23 @@ func runProperty(w *World, o *checkOpts) *Report {
 		fr := byFunc[j.v.fc.Pkg+"."+j.v.fc.Name]
 		ok := false
 		if ob.Cover {
-			// a cover must be satisfiable (unknown is tolerated: reachability could not be refuted)
+			// a cover must be satisfiable (unknown is tolerated: reachability could not be refuted).
+			// Hard: the precondition is satisfiable and some return is reachable; other
+			// unreachable points (dead branches under a behaviour's precondition) are only listed.
 			ok = r.Status != "unsat"
+			fk := j.v.fname + "[" + j.v.behav + "]"
+			if strings.Contains(ob.Name, "cover.return") {
+				if ok {
+					retReach[fk] = true
+				} else if !retReach[fk] {
+					retReach[fk] = false
+				}
+			}
 			if !ok {
-				rep.Vacuity = append(rep.Vacuity, ob.Name+": unreachable / vacuous")
+				rep.Vacuity = append(rep.Vacuity, ob.Name+": unreachable under the contract")
+				if !strings.Contains(ob.Name, "requires-satisfiable") {
+					ok = true
+				}
 			}
 		} else {
 			ok = r.Status == "unsat"
@@ -250,6 +264,11 @@ func runProperty(w *World, o *checkOpts) *Report {
 		}
 		if o.verbose {
 			fmt.Printf("  %-8s %-70s %s %dms\n", r.Status, ob.Name, r.Solver, r.Ms)
+		}
+	}
+	for _, fk := range sortedKeys(retReach) {
+		if !retReach[fk] {
+			rep.Errors = append(rep.Errors, fk+": no return is reachable under the contract (vacuous)")
 		}
 	}
 	sort.Slice(rep.Failed, func(i, j int) bool { return rep.Failed[i].Name < rep.Failed[j].Name })
@@ -341,7 +360,13 @@ func (rep *Report) finish(o *checkOpts) int {
 	trusted = append(trusted, "VC generator foxvc itself (not verified; guarded by the must-fail corpus)",
 		"go/ssa translation of the source (x/tools v0.29.0)", "SMT solvers z3 4.8.12 / z3 5.1.0 / cvc5 1.0",
 		"machine integers treated as mathematical integers (no overflow of int)")
-	var assumptions []string
+	assumptions := []string{"scheduling, GC and memory-model effects are not modelled", "bodies of extern functions are replaced by their assumed contracts (listed per function)", "termination only where a decreases clause is given"}
+	if samples == nil {
+		samples = []interface{}{}
+	}
+	if rep.Vacuity == nil {
+		rep.Vacuity = []string{}
+	}
 	for _, fr := range rep.Funcs {
 		for _, n := range fr.Notes {
 			assumptions = append(assumptions, fr.Name+": "+n)
